@@ -345,7 +345,7 @@ def _history(cap: int, ttl, names: list[str], deltas: list) -> bool:  # type: ig
     return _seq_property(names, times, got, cap, ttl) and len(cache) <= cap
 
 
-@cond(q=90, t=200, engine="xh", encoded=ENCODED, bound="5 sequential calls a, b, x, y, z with x,y,z any of {a,b,c}; capacity 2; ttl 5; each clock step 0 or 2")
+@cond(q=90, t=200, engine="xh", encoded=ENCODED, bound="5 sequential calls a, b, x, y, z with x,y,z any of {a,b,c}; capacity 2; ttl 3; each clock step 0 or 2 (so entries expire inside the history and a replay can fall inside or outside its window)")
 def sequential_history_eviction_order(n2: int, n3: int, n4: int, j1: bool, j2: bool, j3: bool, j4: bool) -> bool:
     """
     pre: 0 <= n2 <= 2 and 0 <= n3 <= 2 and 0 <= n4 <= 2
@@ -355,7 +355,7 @@ def sequential_history_eviction_order(n2: int, n3: int, n4: int, j1: bool, j2: b
     # un-rewritten real methods judged by the property (_seq_property)
     names = ["a", "b", _pick_name(n2), _pick_name(n3), _pick_name(n4)]
     deltas = [0, 2 if j1 else 0, 2 if j2 else 0, 2 if j3 else 0, 2 if j4 else 0]
-    return _history(2, 5, names, deltas)
+    return _history(2, 3, names, deltas)
 
 
 @cond(q=120, t=1800, tiers=("thorough",), engine="xh", encoded=ENCODED, bound="5 sequential calls over 4 nonce names (first two fixed a, b), capacity 2..3, unbounded integer clock steps and ttl")
@@ -367,3 +367,16 @@ def sequential_history_replays_refused(cap3: bool, ttl: int, n2: int, n3: int, n
     """
     names = ["a", "b", _pick_name(n2), _pick_name(n3), _pick_name(n4)]
     return _history(3 if cap3 else 2, ttl, names, [0, d1, d2, d3, d4])
+
+
+@cond(q=300, t=900, engine="xh", encoded=ENCODED, bound="6 sequential calls a, b, then four more over {a,b,c,d}; capacity 3 (so the cache is not full while entries expire); ttl 3; each clock step 0 or 2")
+def sequential_history_below_capacity(n2: int, n3: int, n4: int, n5: int, j1: bool, j2: bool, j3: bool, j4: bool, j5: bool) -> bool:
+    """
+    pre: 0 <= n2 <= 3 and 0 <= n3 <= 3 and 0 <= n4 <= 3 and 0 <= n5 <= 3
+    post: _
+    """
+    # capacity above the number of live entries for part of the history: expiry handling that only
+    # happens "when space is needed" shows here and not in the capacity-2 item
+    names = ["a", "b", _pick_name(n2), _pick_name(n3), _pick_name(n4), _pick_name(n5)]
+    deltas = [0, 2 if j1 else 0, 2 if j2 else 0, 2 if j3 else 0, 2 if j4 else 0, 2 if j5 else 0]
+    return _history(3, 3, names, deltas)
